@@ -107,13 +107,20 @@ func (c *compiler) placeholder() []byte {
 
 func (c *compiler) patchJump(placeholder int) {
 	offset := len(c.bytecode) - 2 - placeholder
+	if offset > math.MaxUint16 {
+		panic("exceeded max jump offset")
+	}
 	b := encode(uint16(offset))
 	c.bytecode[placeholder] = b[0]
 	c.bytecode[placeholder+1] = b[1]
 }
 
 func (c *compiler) calcBackwardJump(to int) []byte {
-	return encode(uint16(len(c.bytecode) + 1 + 2 - to))
+	offset := len(c.bytecode) + 1 + 2 - to
+	if offset > math.MaxUint16 {
+		panic("exceeded max jump offset")
+	}
+	return encode(uint16(offset))
 }
 
 func (c *compiler) compile(node ast.Node) {
